@@ -301,7 +301,7 @@ namespace link_layer {
                         return true;
                     }
 
-                    link_layer.defered_ll_control_pdu_     = pdu;
+                    link_layer.defer_ll_control_pdu( pdu );
                     link_layer.defered_conn_event_counter_ = ::bluetoe::details::read_16bit( pdu_body + 3 );
 
                     return true;
@@ -737,6 +737,8 @@ namespace link_layer {
         ll_result handle_pending_ll_control( std::uint16_t instance );
         // true, if the instant of a just received LL control PDU can not be met anymore
         bool instant_passed( std::uint16_t instant ) const;
+        // keeps a copy of the given LL control PDU until its instant is reached
+        void defer_ll_control_pdu( const write_buffer& pdu );
 
         connection_details details() const;
 
@@ -826,6 +828,9 @@ namespace link_layer {
         delta_time                      procedure_timeout_;
         std::uint16_t                   defered_conn_event_counter_;
         write_buffer                    defered_ll_control_pdu_;
+        // the largest LL control PDU, that has to wait for its instant, is the LL_CONNECTION_UPDATE_IND
+        static constexpr std::size_t    maximum_defered_ll_payload_size = 12u;
+        std::uint8_t                    defered_ll_control_pdu_buffer_[ layout_t::data_channel_pdu_memory_size( maximum_defered_ll_payload_size ) ];
         connection_data_t               connection_data_;
         bool                            termination_send_;
         std::uint16_t                   used_features_;
@@ -1563,7 +1568,7 @@ namespace link_layer {
                 }
                 else
                 {
-                    defered_ll_control_pdu_ = pdu;
+                    defer_ll_control_pdu( pdu );
                 }
             }
             else if ( opcode == LL_TERMINATE_IND && size == 2 )
@@ -1602,7 +1607,7 @@ namespace link_layer {
                 }
                 else
                 {
-                    defered_ll_control_pdu_ = pdu;
+                    defer_ll_control_pdu( pdu );
                 }
             }
             else if ( opcode == LL_PING_REQ && size == 1 )
@@ -1702,6 +1707,19 @@ namespace link_layer {
         }
 
         return result;
+    }
+
+    template < class Server, template < std::size_t, std::size_t, class > class ScheduledRadio, typename ... Options >
+    void link_layer< Server, ScheduledRadio, Options... >::defer_ll_control_pdu( const write_buffer& pdu )
+    {
+        // The PDU is located in the receive buffer and is freed by the caller. Until the instant is reached,
+        // that memory will be reused for other received PDUs. So a copy is required.
+        assert( pdu.size <= sizeof( defered_ll_control_pdu_buffer_ ) );
+
+        const std::size_t size = std::min( pdu.size, sizeof( defered_ll_control_pdu_buffer_ ) );
+        std::copy( pdu.buffer, pdu.buffer + size, &defered_ll_control_pdu_buffer_[ 0 ] );
+
+        defered_ll_control_pdu_ = write_buffer{ &defered_ll_control_pdu_buffer_[ 0 ], size };
     }
 
     template < class Server, template < std::size_t, std::size_t, class > class ScheduledRadio, typename ... Options >
